@@ -1,7 +1,7 @@
 (** C11 — ISIMIP adjusts the frequency of beyond-threshold events as specified.
     Property theorems only, about the definitions REGENERATED from ibicus/debias/_isimip.py. *)
 From Coq Require Import QArith Qabs Qround ZArith List Bool.
-From IV Require Import NP QL GenIsimip C11_proofs.
+From IV Require Import NP QL GenIsimip C11_proofs C11_monotone.
 Import ListNotations.
 Open Scope Q_scope.
 
@@ -23,6 +23,13 @@ Print Assumptions C11_P_same_model_close.
 Theorem C11_P_unbiased : forall Po Ph Pf, Ph == Po -> step6_P_obs_future Po Ph Pf = Pf.
 Proof. exact P_unbiased_eq. Qed.
 Print Assumptions C11_P_unbiased.
+
+(** monotone in the model's future frequency, over ALL four branches and across their boundaries (isclose shortcut
+    included): a model that simulates more beyond-threshold events never gets fewer after the adjustment *)
+Theorem C11_P_monotone_in_future : forall Po Ph Pf1 Pf2, 0 <= Po <= 1 -> 0 <= Ph <= 1 -> Pf1 <= Pf2 ->
+  step6_P_obs_future Po Ph Pf1 <= step6_P_obs_future Po Ph Pf2.
+Proof. exact P_monotone_in_future. Qed.
+Print Assumptions C11_P_monotone_in_future.
 
 Theorem C11_isclose_is_equality_on_grids : forall k1 k2 n, (0 < n <= 50000)%Z -> (0 <= k2 <= n)%Z -> k1 <> k2 ->
   QL.isclose (inject_Z k1 / inject_Z n) (inject_Z k2 / inject_Z n) = false.
